@@ -438,6 +438,9 @@ struct Flow : Prop {
 				bool ever_stalled = false; for (auto &w : wins) if (in_subtree(kv.first, w.node)) ever_stalled = true;
 				if (ever_stalled) continue;   // release after a stall is checked at the end of the run
 				if (!live_q[kv.first].empty()) continue;
+				// (same reservation as for the stranded-trigger: the model's queue may have been expired wholesale while the library, whose oldest
+				// request had matched, still counts some of it - judged only if the library's own figure leaves room for the held message)
+				{ auto lu = g_lib_used.find(kv.first); if (lu != g_lib_used.end() && lu->second + subs[kv.second[0]].size > 48) { n_model_ahead_of_library++; continue; } }
 				e.violate("NOT_ADMITTED", is_c04 ? "node outside every stalled subtree" : "idle node", "message " + subs[kv.second[0]].key + " is held back although its node has no outstanding responses and neither it nor an ancestor ever reported a stall");
 			}
 		}
